@@ -48,6 +48,7 @@ type tokSpec struct {
 
 type scenario struct {
 	grace int // ms, 0 = no grace period configured
+	delay int // ms, 0 = no shutdown_delay configured
 	napps int // number of probe apps next to http/tls/events (0..2)
 	cfgs  []cfgSpec
 	toks  []tokSpec
@@ -181,8 +182,10 @@ type runner struct {
 	fails  []core.Failure
 
 	traffic    trafficStats
-	admEpoch   atomic.Int64 // odd while a replaced admin endpoint may be shutting down
-	admAddr    int          // admin endpoint in effect: its address (-1: none) and the load that started it
+	sdMu       sync.Mutex
+	sdSeen     map[int]map[int]bool // load -> generations seen answering with {http.shutting_down} true
+	admEpoch   atomic.Int64         // odd while a replaced admin endpoint may be shutting down
+	admAddr    int                  // admin endpoint in effect: its address (-1: none) and the load that started it
 	admGen     int
 	resetsSeen int // probes reset while the replaced config's tcp listener was being closed
 }
@@ -518,6 +521,9 @@ func (r *runner) configJSON(gen int, c cfgSpec) []byte {
 	httpApp := map[string]any{"servers": servers}
 	if r.sc.grace > 0 {
 		httpApp["grace_period"] = int64(r.sc.grace) * int64(time.Millisecond)
+	}
+	if r.sc.delay > 0 {
+		httpApp["shutdown_delay"] = int64(r.sc.delay) * int64(time.Millisecond)
 	}
 	apps := map[string]any{
 		"http": httpApp,
